@@ -14,6 +14,10 @@
 #define S_VL ((size_t)U32AT(b + 4 + KL + XB))
 #define ENTRY_OK (HDR_OK && S_VL <= VAL_CAP && AVAIL - 4 - KL - XB - 4 >= S_VL)
 #define ENTRY_N (4 + KL + XB + 4 + S_VL)
+/* WRITE-SIDE bounds, from the real validation in set()/setBatch (validateKeyValue; constants extracted from the header): every (key, value) the store can hold and
+ * therefore every entry compactLocked -> writeKeyValue can emit.  The reader must not be tighter (clauses SRw1..SRw3), incl. the boundaries vlen == 0 and vlen == MAX_VALUE_LENGTH. */
+#define W_HDR (AVAIL >= 4 && KL >= 1 && KL <= MAX_KEY_LENGTH && AVAIL - 4 >= KL + XB + 4)
+#define W_ENTRY (W_HDR && S_VL <= MAX_VALUE_LENGTH && AVAIL - 4 - KL - XB - 4 >= S_VL)
 #define PLAUSIBLE(ms) ((ms) > 0 && (ms) <= kMaxPlausibleEpochMs)
 #define KV (st._kv)
 #define EX (st._expiry)
@@ -52,6 +56,8 @@ void h_snap_step_framing(void)
   __CPROVER_assert(IMPL(i < count && !ENTRY_OK, iora_exc == EXC_KVStoreException && !touched), "N1 a truncated or out-of-range entry is REFUSED with an exception (the store does not open on half a snapshot) and is not applied");
   __CPROVER_assert(IMPL(i < count && ENTRY_OK, iora_exc == EXC_NONE && snap.pos == b + ENTRY_N && !snap.fail && snap.open), "N2 a complete entry is consumed exactly (next entry at b + 4 + klen [+ 8] + 4 + vlen)");
   __CPROVER_assert(IMPL(touched, i < count && ENTRY_OK), "N3 an entry is applied only if it is complete");
+  __CPROVER_assert(IMPL(i < count && W_ENTRY, iora_exc == EXC_NONE && snap.pos == b + ENTRY_N && !snap.fail), "SRw1 every entry the snapshot writer emits for a (key, value) set() accepts (1 <= klen <= MAX_KEY_LENGTH, 0 <= vlen <= MAX_VALUE_LENGTH) is ACCEPTED by the reader and consumed exactly - the store opens");
+  __CPROVER_assert(IMPL(i < count && W_ENTRY && (version == 1 || S_EXP == IORA_LIMIT_int64_t_min || PLAUSIBLE(S_EXP)), KV.touched), "SRw2 ... and LOADED (sentinel or plausible expiry, as the writer emits for a live key)");
 }
 /* proof "snap_step_decode" */
 void h_snap_step_decode(void)
@@ -63,6 +69,7 @@ void h_snap_step_decode(void)
   __CPROVER_assert(IMPL(KV.touched && GK < KL, (uint8_t)LK.p[GK] == LOG[b + 4 + GK]), "K2 decoded key bytes == entry bytes (arbitrary byte GK)");
   __CPROVER_assert(IMPL(KV.touched && isg, KV.has && KV.val.n == S_VL), "K3 value length == vlen32");
   __CPROVER_assert(IMPL(KV.touched && isg && GK < S_VL, KV.val.p[GK] == LOG[b + 4 + KL + XB + 4 + GK]), "K4 value bytes == entry bytes (arbitrary byte GK)");
+  __CPROVER_assert(IMPL(i < count && W_ENTRY && KV.touched && isg, KV.has && KV.val.n == S_VL && IMPL(GK < S_VL, KV.val.p[GK] == LOG[b + 4 + KL + XB + 4 + GK])), "SRw3 ... with the same value bytes (any length from 0 to MAX_VALUE_LENGTH)");
   __CPROVER_assert(IMPL(touched && !isg, UNCHANGED_KV && UNCHANGED_EX), "K5 frame: an entry for another key leaves the ghost key untouched");
 }
 /* proof "snap_step_apply": v1 / v2 semantics */
@@ -99,7 +106,7 @@ void h_snap_writer(void)
     __CPROVER_assert(out.n <= 8 && IMPL(GW < out.n, out.gw == (GW < 4 ? LE_BYTE(st._config.magicNumber, GW) : LE_BYTE((uint32_t)2, GW - 4))), "W2 header bytes: magic32 | version32 == 2");
   } else {
     iora_sv key; iora_bv value; int64_t exp = nondet_i64();
-    key.n = nondet_size_t(); value.n = nondet_size_t(); __CPROVER_assume(key.n >= 1 && key.n <= 65535 && value.n <= VAL_CAP);      /* keys/values of the live maps (validateKeyValue) */
+    key.n = nondet_size_t(); value.n = nondet_size_t(); __CPROVER_assume(key.n >= 1 && key.n <= MAX_KEY_LENGTH && value.n <= MAX_VALUE_LENGTH);      /* keys/values of the live maps (validateKeyValue, extracted constants) */
     key.p = (const char *)malloc(key.n); value.p = (const uint8_t *)malloc(value.n); __CPROVER_assume(key.p != NULL && value.p != NULL);
     bool ok = KVStore_writeKeyValue(&st, &out, key, exp, value);
     IORA_CANARY("h_snap_writer: entry written");
@@ -112,7 +119,7 @@ void h_snap_roundtrip(void)
 {
   iora_sv key; iora_bv value; int64_t exp = nondet_i64(); uint32_t version = 2;
   key.n = nondet_size_t(); value.n = nondet_size_t(); GK = nondet_size_t();
-  __CPROVER_assume(key.n >= 1 && key.n <= 65535 && value.n <= VAL_CAP);
+  __CPROVER_assume(key.n >= 1 && key.n <= MAX_KEY_LENGTH && value.n <= MAX_VALUE_LENGTH);      /* what set() accepts */
   key.p = (const char *)malloc(key.n); value.p = (const uint8_t *)malloc(value.n); __CPROVER_assume(key.p != NULL && value.p != NULL);
   size_t LOG_N = SENC_N(key, value); uint8_t *LOG = (uint8_t *)malloc(LOG_N); __CPROVER_assume(LOG != NULL); size_t b = 0;
 #define SENC_AT(j) __CPROVER_assume(!((j) < LOG_N) || LOG[(j)] == SENC_BYTE((j), key, exp, value))
@@ -121,6 +128,7 @@ void h_snap_roundtrip(void)
   SENC_AT4(4 + key.n); SENC_AT4(4 + key.n + 4); SENC_AT4(4 + key.n + 8); if (GK < value.n) { SENC_AT(4 + key.n + 12 + GK); }
   IORA_CANARY("h_snap_roundtrip: an entry exists");
   __CPROVER_assert(ENTRY_OK && ENTRY_N == LOG_N, "SRT1 every entry the writer produces is accepted and consumed exactly");
+  __CPROVER_assert(W_ENTRY, "SRT1w a writer-laid-out entry lies inside the write-side domain the SRw clauses quantify over");
   __CPROVER_assert(KL == key.n && S_EXP == exp && S_VL == value.n, "SRT2 key length, expiry and value length decode to the originals");
   __CPROVER_assert(IMPL(GK < key.n, LOG[b + 4 + GK] == (uint8_t)key.p[GK]) && IMPL(GK < value.n, LOG[b + 4 + KL + XB + 4 + GK] == value.p[GK]), "SRT3 key and value bytes decode to the originals");
 }
